@@ -1052,5 +1052,251 @@ Section Keys.
       assert (In (sh_name sh) (empty_names shapes)) by (apply empty_names_In; exists sh; auto).
       rewrite Hno in H0. destruct H0.
     Qed.
+
+    (** ** K4: what an optional constraint stands for *)
+    Hypothesis feq_inj : forall n1 n2 N, okN N -> (n1 <= N)%N -> (n2 <= N)%N ->
+      feqb fa (ratio fa n1 N) (ratio fa n2 N) = true -> n1 = n2.
+
+    (** profile well-formedness used by K4: outside tau every exact-cardinality
+        entry comes with a "+" entry that counts at least as many instances,
+        and no count exceeds the class size *)
+    Definition pd_wf (cnt : N) (pd : pdict) : Prop :=
+      (forall p k c n, p <> x_tau cfg -> pd_entry pd p k (CKn c) n ->
+                       exists np, pd_entry pd p k CKplus np /\ (n <= np)%N) /\
+      (forall p k ck n, pd_entry pd p k ck n -> (n <= cnt)%N).
+
+    (** exactly [n] instances have one value of type [k] for [p], and (outside
+        tau) exactly [n] have at least one: none has two *)
+    Definition opt_single (pd : pdict) (p k : str) (n : N) : Prop :=
+      pd_entry pd p k (CKn 1) n /\ (p <> x_tau cfg -> pd_entry pd p k CKplus n).
+
+    Lemma decide_best_kls cnt g r :
+      x_keep_less_specific cfg = true -> decide_best fa cfg cnt g = inl r ->
+      (exists s, In s g /\ is_plus (s_card s) = true) ->
+      is_plus (s_card r) = true \/ useless_plus_group fa cnt g = true.
+    Proof.
+      intros Hk H [s [Hs Hp]]. unfold decide_best in H.
+      destruct (x_discard_useless cfg && useless_plus_group fa cnt g) eqn:Eu.
+      - right. apply andb_true_iff in Eu. tauto.
+      - left. rewrite Hk in H. unfold first_such in H.
+        destruct (List.find (fun s => is_plus (s_card s)) (sort_desc fa cnt g)) as [res|] eqn:Ef.
+        + apply find_some in Ef. apply add_comments_of_spec in H. destruct H as [(_ & _ & _ & _ & -> & _) _]. tauto.
+        + exfalso. assert (Hs' : In s (sort_desc fa cnt g)) by (apply sort_desc_In; exact Hs).
+          pose proof (find_none _ _ Ef s Hs') as Hn. cbn in Hn. congruence.
+    Qed.
+
+    Lemma useless_two cnt g :
+      useless_plus_group fa cnt g = true ->
+      exists a b, g = [a; b] /\ feqb fa (pv fa cnt a) (pv fa cnt b) = true.
+    Proof.
+      unfold useless_plus_group. destruct g as [|a [|b [|c g]]]; try discriminate.
+      intros H. apply andb_true_iff in H. exists a, b. tauto.
+    Qed.
+
+    Lemma mgc_one a b : most_general_card a b = CExact 1 -> a = CExact 1 /\ b = CExact 1.
+    Proof.
+      unfold most_general_card. destruct (is_plus a || is_plus b || negb (card_eqb a b)) eqn:E; [discriminate|].
+      intros ->. apply orb_false_iff in E. destruct E as [_ E]. apply negb_false_iff in E.
+      unfold card_eqb in E. destruct b; try discriminate. apply N.eqb_eq in E. subst. auto.
+    Qed.
+
+    Lemma card_of_key_one ck : card_of_key ck = CExact 1 -> ck = CKn 1.
+    Proof. destruct ck; cbn; intros H; [injection H as ->; reflexivity | discriminate]. Qed.
+
+    Section K4.
+      Variable thr : F fa.
+      Variable cnt : N.
+      Variable ce : str * centry.
+      Variable d : bool.
+      Hypothesis Hkls : x_keep_less_specific cfg = true.
+      Hypothesis Hthr : okF thr.
+      Hypothesis Hcnt0 : forall p k ck n, pd_entry (class_pd ce d) p k ck n -> okN cnt.
+      Hypothesis Hwf : pd_wf cnt (class_pd ce d).
+
+      Let l := dirl d (class_sorted thr cnt ce).
+      Let pd := class_pd ce d.
+
+      Lemma group_same_one_just l1 r :
+        group_same fa cfg (List.length l) cnt l = inl l1 -> In r l1 -> s_card r = CExact 1 ->
+        opt_single pd (s_prop r) (s_type r) (s_nocc r).
+      Proof.
+        intros E Hr Hc.
+        destruct (Forall2_In_r _ _ _ _ (group_same_spec fa cfg _ cnt l l1 (le_n _) E) Hr) as [t [_ Hpick]].
+        pose proof (same_pick_tok fa cfg _ _ _ _ Hpick) as Ht.
+        destruct (same_pick_chosen fa cfg _ _ _ _ Hpick) as (s & Hs & Hcore & _).
+        pose proof (core_eq_type _ _ Hcore) as Hty.
+        destruct Hcore as (_ & C2 & _ & _ & C5 & C6 & _).
+        pose proof Hs as Hs0. apply filter_In in Hs0. destruct Hs0 as [Hsl Hst]. apply tok_eqb_eq in Hst.
+        pose proof Hsl as Hb. apply dirl_In in Hb. destruct Hb as (p & k & ck & n & He & Hf & Es).
+        assert (Eck : ck = CKn 1).
+        { apply card_of_key_one. rewrite <- Hc, C5, Es. reflexivity. }
+        pose proof (Hcnt0 _ _ _ _ He) as Hcnt.
+        subst ck. rewrite C2, Hty, C6, Es. cbn. split; [exact He|]. intros Hp.
+        destruct Hwf as [W1 W2]. destruct (W1 p k 1%N n Hp He) as [np [Hep Hle]].
+        set (splus := base_stmt d p k CKplus np).
+        assert (Hpl : In splus l).
+        { apply dirl_In. exists p, k, CKplus, np. split; [exact Hep|]. split; [|reflexivity].
+          apply (fle_trans thr (ratio fa n cnt)); auto. }
+        assert (Hpg : In splus (filter (fun x => tok_eqb t (tok x)) l)).
+        { apply filter_In. split; [exact Hpl|]. apply tok_eqb_eq. rewrite Hst, Es. reflexivity. }
+        unfold same_pick in Hpick.
+        destruct (filter (fun x => tok_eqb t (tok x)) l) as [|a [|b g]] eqn:Eg; [destruct Hpick| |].
+        - subst a. destruct Hpg as [Ha|[]]. rewrite Ha in Hc. discriminate.
+        - destruct (decide_best_kls cnt _ r Hkls Hpick) as [Hplus|Hu].
+          + exists splus. split; [exact Hpg | reflexivity].
+          + rewrite Hc in Hplus. discriminate.
+          + destruct (useless_two cnt _ Hu) as (a' & b' & Eab & Hfeq). injection Eab as <- <- ->.
+            assert (Hn : n = np).
+            { pose proof (W2 p k (CKn 1) n He) as B1. pose proof (W2 p k CKplus np Hep) as B2.
+              assert (Hne : s <> splus) by (intros E0; rewrite E0 in Es; discriminate).
+              destruct Hs as [Hs|[Hs|[]]]; destruct Hpg as [Hq|[Hq|[]]]; try congruence.
+              - rewrite Hs, Hq, Es in Hfeq. apply (feq_inj n np cnt Hcnt B1 B2). exact Hfeq.
+              - rewrite Hs, Hq, Es in Hfeq. symmetry. apply (feq_inj np n cnt Hcnt B2 B1). exact Hfeq. }
+            rewrite Hn. exact Hep.
+      Qed.
+
+      (** K4 on the statements selected for one direction of one class *)
+      Theorem select_valid_one_just out r :
+        select_valid fa cfg cnt l = inl out -> In r out -> s_card r = CExact 1 -> s_choice r = false ->
+        opt_single pd (s_prop r) (s_type r) (s_nocc r) \/
+        (s_type r = c_NONLITERAL_ELEM_TYPE /\
+         exists nb ni, opt_single pd (s_prop r) c_BNODE_ELEM_TYPE nb /\
+                       opt_single pd (s_prop r) c_IRI_ELEM_TYPE ni /\ s_nocc r = (nb + ni)%N).
+      Proof.
+        intros H Hr Hc Hch. rewrite select_valid_eq in H.
+        destruct (group_same fa cfg (List.length l) cnt l) as [l1|e] eqn:E1; [|discriminate].
+        pose proof (group_nodes_spec fa cfg _ cnt l1 out (le_n _) H) as F.
+        destruct (Forall2_In_r _ _ _ _ F Hr) as [a [Ha Hp]]. apply (node_heads_In cfg) in Ha.
+        unfold node_pick in Hp.
+        destruct (node_pass cfg a); [subst r; left; apply (group_same_one_just l1 a E1 Ha Hc)|].
+        assert (Hg : forall x, In x (node_group cfg l1 a) -> In x l1 /\ s_prop a = s_prop x).
+        { intros x Hx. apply node_group_In in Hx. tauto. }
+        destruct (node_group cfg l1 a) as [|x [|y g]] eqn:Eg; [destruct Hp| |].
+        - subst r. left. apply (group_same_one_just l1 x E1 (proj1 (Hg x (or_introl eq_refl))) Hc).
+        - apply merge_group_spec in Hp. destruct Hp as (d0 & d1 & ks & Hd & Ho & Hcore & _).
+          pose proof (core_eq_type _ _ Hcore) as Hty.
+          destruct Hcore as (_ & C2 & _ & C4 & C5 & C6 & _).
+          destruct Ho as [|tys _ _ _]; [|cbn in C4; congruence].
+          rewrite C2, Hty, C6. rewrite C5 in Hc.
+          destruct Hd as [d0 Hin | b i Hb Hi Tb Ti].
+          + left. apply (group_same_one_just l1 d0 E1 (proj1 (Hg d0 Hin)) Hc).
+          + right. cbn in Hc. apply mgc_one in Hc. destruct Hc as [Hcb Hci].
+            split; [reflexivity|]. exists (s_nocc b), (s_nocc i).
+            destruct (Hg b Hb) as [Hb1 Hbp]. destruct (Hg i Hi) as [Hi1 Hip].
+            pose proof (group_same_one_just l1 b E1 Hb1 Hcb) as Jb.
+            pose proof (group_same_one_just l1 i E1 Hi1 Hci) as Ji.
+            unfold is_bnode in Tb. unfold is_iri in Ti. apply str_eqb_eq in Tb, Ti.
+            rewrite Tb in Jb. rewrite Ti in Ji. cbn [nonlit_merge s_prop s_nocc].
+            rewrite <- Hip, Hbp in Ji. auto.
+      Qed.
+    End K4.
+
+    Lemma fig_src_not_opt pd p k n pr c : fig_src pd p k n pr c -> c <> COpt.
+    Proof.
+      intros H. destruct H as [k ck n _ | ckb nb cki ni _ _].
+      - destruct ck; discriminate.
+      - unfold most_general_card. destruct (_ || _); [discriminate | destruct ckb; discriminate].
+    Qed.
+
+    Lemma card_eqb_one c : card_eqb c (CExact 1) = true -> c = CExact 1.
+    Proof. unfold card_eqb. destruct c; try discriminate. intros H. apply N.eqb_eq in H. subst; reflexivity. Qed.
+
+    (** only the all-compliant rule makes a [?], and only out of [{1}] *)
+    Lemma tune_one_opt pd cnt s st :
+      pre_ok pd s -> tune_one fa cfg cnt s = inl st -> s_card st = COpt -> s_card s = CExact 1.
+    Proof.
+      intros [(ty & _ & _ & Hf) _] H Hc. apply fig_src_not_opt in Hf.
+      apply tune_one_spec in H. destruct H as [s1 [Hr ->]].
+      destruct (tune_post_fields cfg s1) as (_ & _ & _ & T4). rewrite T4 in Hc.
+      assert (Hgen : forall c, (if x_disable_exact cfg
+                                then match c with CExact k => if N.ltb 1 k then CPlus else CExact k
+                                     | CPlus => CPlus | CStar => CStar | COpt => COpt end
+                                else c) = COpt -> c = COpt).
+      { intros c. destruct (x_disable_exact cfg); [|auto].
+        destruct c as [k| | |]; intros Hx; try discriminate Hx; [destruct (N.ltb 1 k); discriminate Hx | reflexivity]. }
+      apply Hgen in Hc. destruct Hr as [_ | _ _ | k _ _ _]; try contradiction.
+      cbn in Hc. unfold relax_card in Hc.
+      destruct (x_allow_opt cfg && card_eqb (s_card s) (CExact 1)) eqn:E; [|discriminate].
+      apply andb_true_iff in E. apply card_eqb_one. tauto.
+    Qed.
+
+    (** K4 for one class *)
+    Theorem shex_class_opt thr C ce sh :
+      x_keep_less_specific cfg = true -> okF thr ->
+      (forall d p k ck n, pd_entry (class_pd ce d) p k ck n -> okN (cnt_of C (fst ce))) ->
+      (forall d, pd_wf (cnt_of C (fst ce)) (class_pd ce d)) ->
+      shex_class fa cfg thr C ce = inl sh ->
+      forall st, In st (sh_stmts sh) -> s_card st = COpt -> s_choice st = false ->
+      let pd := class_pd ce (s_inv st) in
+      opt_single pd (s_prop st) (s_type st) (s_nocc st) \/
+      (s_type st = c_NONLITERAL_ELEM_TYPE /\
+       exists nb ni, opt_single pd (s_prop st) c_BNODE_ELEM_TYPE nb /\
+                     opt_single pd (s_prop st) c_IRI_ELEM_TYPE ni /\ s_nocc st = (nb + ni)%N).
+    Proof.
+      intros Hk Ht Hn Hwf H st Hst Hc Hch. destruct (shex_class_unfold thr C ce sh H) as (vd & vi & Hd & Hi & Htu & _).
+      set (cnt := cnt_of C (fst ce)) in *.
+      apply tune_spec in Htu. destruct (Forall2_In_r _ _ _ _ Htu Hst) as [s [Hs Hone]].
+      apply sort_desc_In in Hs.
+      assert (Hok : forall d, Forall (pre_ok (class_pd ce d)) (dirl d (class_sorted thr cnt ce))).
+      { intros d. apply Forall_forall. intros x Hx. apply dirl_In in Hx.
+        destruct Hx as (p & k & ck & n & He & _ & ->). apply pre_ok_base; exact He. }
+      pose proof (tune_one_sig fa cfg cnt s st Hone) as Hsig. unfold sig in Hsig.
+      injection Hsig as I1 I2 I3 I4 I5.
+      assert (Hty : s_type st = s_type s) by (unfold s_type; rewrite I3; reflexivity).
+      assert (G : forall d v, select_valid fa cfg cnt (dirl d (class_sorted thr cnt ce)) = inl v -> In s v ->
+                  let pd := class_pd ce (s_inv st) in
+                  opt_single pd (s_prop st) (s_type st) (s_nocc st) \/
+                  (s_type st = c_NONLITERAL_ELEM_TYPE /\
+                   exists nb ni, opt_single pd (s_prop st) c_BNODE_ELEM_TYPE nb /\
+                                 opt_single pd (s_prop st) c_IRI_ELEM_TYPE ni /\ s_nocc st = (nb + ni)%N)).
+      { intros d v Hv Hin.
+        pose proof (select_valid_ok _ d cnt _ v (dirl_plain d thr cnt ce) (Hok d) Hv) as Hall.
+        rewrite Forall_forall in Hall.
+        pose proof (select_valid_inv d cnt _ v s (dirl_plain d thr cnt ce) Hv Hin) as Hinv.
+        pose proof (tune_one_opt _ cnt s st (Hall s Hin) Hone Hc) as Hc1.
+        rewrite I1, Hinv, I2, Hty, I5. cbv zeta.
+        apply (select_valid_one_just thr cnt ce d Hk Ht (Hn d) (Hwf d) v s Hv Hin Hc1). congruence. }
+      apply in_app_or in Hs. destruct Hs as [Hs|Hs]; [apply (G false vd Hd Hs) | apply (G true vi Hi Hs)].
+    Qed.
+
+    (** K4 (C03 part): with [keep_less_specific], an optional constraint that
+        is not an OR stands on a profile in which as many instances have
+        exactly one value of the type as have at least one -- or it is the
+        merged kind, where this holds for IRI and BNode separately (an
+        instance may still have one of each) *)
+    Theorem K4 thr P C shapes :
+      x_keep_less_specific cfg = true -> okF thr -> counts_ok P C ->
+      (forall ce d, In ce P -> pd_wf (cnt_of C (fst ce)) (class_pd ce d)) ->
+      shex fa cfg thr P C = inl shapes ->
+      forall sh, In sh shapes ->
+      exists ce, In ce P /\ sh_class sh = fst ce /\ sh_name sh = shape_name (x_shapes_ns cfg) (fst ce) /\
+        forall st, In st (sh_stmts sh) -> s_card st = COpt -> s_choice st = false ->
+        let pd := class_pd ce (s_inv st) in
+        opt_single pd (s_prop st) (s_type st) (s_nocc st) \/
+        (s_type st = c_NONLITERAL_ELEM_TYPE /\
+         exists nb ni, opt_single pd (s_prop st) c_BNODE_ELEM_TYPE nb /\
+                       opt_single pd (s_prop st) c_IRI_ELEM_TYPE ni /\ s_nocc st = (nb + ni)%N).
+    Proof.
+      intros Hk Ht Hc Hwf H sh Hsh. destruct (shex_unfold thr P C shapes H) as [shapes0 [F Hcl]].
+      assert (G : forall sh0, In sh0 shapes0 ->
+                exists ce, In ce P /\ sh_class sh0 = fst ce /\ sh_name sh0 = shape_name (x_shapes_ns cfg) (fst ce) /\
+                  forall st, In st (sh_stmts sh0) -> s_card st = COpt -> s_choice st = false ->
+                  let pd := class_pd ce (s_inv st) in
+                  opt_single pd (s_prop st) (s_type st) (s_nocc st) \/
+                  (s_type st = c_NONLITERAL_ELEM_TYPE /\
+                   exists nb ni, opt_single pd (s_prop st) c_BNODE_ELEM_TYPE nb /\
+                                 opt_single pd (s_prop st) c_IRI_ELEM_TYPE ni /\ s_nocc st = (nb + ni)%N)).
+      { intros sh0 H0. destruct (Forall2_In_r _ _ _ _ F H0) as [ce [Hce Hs]].
+        destruct (shex_class_unfold thr C ce sh0 Hs) as (vd & vi & _ & _ & _ & E1 & E2 & E3).
+        exists ce. split; [exact Hce|]. split; [exact E2|]. split; [exact E1|].
+        apply (shex_class_opt thr C ce sh0 Hk Ht); auto.
+        intros d p k ck n He. apply (Hc ce d p k ck n Hce He). }
+      destruct (x_remove_empty cfg).
+      - destruct (clean_shapes_sub _ _ _ Hcl sh Hsh) as [sh0 [H0 (A1 & A2 & A3 & A4)]].
+        destruct (G sh0 H0) as (ce & B0 & B1 & B2 & B3).
+        exists ce. rewrite A1, A2. split; [exact B0|]. split; [exact B1|]. split; [exact B2|].
+        intros st Hst. apply B3. apply A4. exact Hst.
+      - subst shapes0. apply G; exact Hsh.
+    Qed.
   End Laws.
 End Keys.
